@@ -1,11 +1,13 @@
 (* Property C02 — Intersects is exact and symmetric.  PARTIAL: the statements
-   below are kernel-checked for every input; completeness of the ring x segment,
-   ring x ring and polygon-pair algorithms is NOT proved (polygonal Jordan curve
-   theorem, DESIGN §9) and is decided by the differential correspondence against
-   the executable oracle PairSpec.meets_x on every run. *)
+   below are kernel-checked for every input.  Ring x segment and ring x line
+   string (= polygon without holes x line string) are proved exact as point sets
+   through a discrete Jordan-curve argument (Jordan.v, JordanQ.v); exactness of
+   ring x ring and of pairs involving holes is NOT proved and is decided by the
+   differential correspondence against the executable oracle PairSpec.meets_x on
+   every run. *)
 From Coq Require Import QArith.
 From GJ Require Import Base Kernel KernelSpec KernelProofs IntersectsProofs IntersectsQ Series SeriesSpec
-  Ring RingSpec PipProofs PairProofs.
+  Ring RingSpec PipProofs PairProofs Jordan JordanQ.
 Open Scope Z_scope.
 
 (* segments: true exactly when the closed segments share a point; symmetric *)
@@ -56,7 +58,76 @@ Proof. reflexivity. Qed.
 Theorem C02_line_poly_symmetric : forall l p, line_intersects_poly l p = poly_intersects_line p l.
 Proof. reflexivity. Qed.
 
+(* ---- rings: a discrete Jordan-curve argument (any closed vertex sequence) ---- *)
+
+(* the crossing parity is constant along a grid segment that no ring edge meets *)
+Theorem C02_parity_constant_off_boundary : forall ps A B,
+  (forall e, In e (ring_edges ps) -> ~ seg_meet e (A, B)) ->
+  parityb (ring_edges ps) A = parityb (ring_edges ps) B.
+Proof. exact parity_constant_off_boundary. Qed.
+
+(* both ends strictly outside and an edge meets the segment: at least two edges do —
+   the fact behind ringIntersectsSegment's "count >= 2" rule *)
+Theorem C02_two_edges_meet : forall ps A B,
+  in_ringb (ring_edges ps) A = false -> in_ringb (ring_edges ps) B = false ->
+  existsb (fun e => intersects_segment (A, B) e) (ring_edges ps) = true ->
+  (2 <= length (filter (fun e => intersects_segment (A, B) e) (ring_edges ps)))%nat.
+Proof. exact two_edges_meet. Qed.
+
+(* ringIntersectsSegment (contact allowed) = an end is in the closed ring or an edge meets the segment *)
+Theorem C02_ring_segment_exact : forall ps A B,
+  ring_intersects_segment (RS {| closed := true; pts := ps |}) (A, B) true =
+  in_ringb (ring_edges ps) A || in_ringb (ring_edges ps) B ||
+  existsb (fun e => seg_meetb e (A, B)) (ring_edges ps).
+Proof. exact ring_intersects_segment_exact. Qed.
+
+(* ... which is: the closed segment and the closed ring share a rational point
+   (P, k) = P / k *)
+Theorem C02_ring_segment_pointset : forall ps A B,
+  ring_intersects_segment (RS {| closed := true; pts := ps |}) (A, B) true = true <->
+  exists k P, 0 < k /\ on_seg (sc k A, sc k B) P /\ in_ringb (ring_edges (map (sc k) ps)) P = true.
+Proof. exact ring_intersects_segment_pointset. Qed.
+
+(* membership of P / k in the ring does not depend on the representative *)
+Theorem C02_rational_membership_well_defined : forall ps j k P, 0 < j ->
+  in_ringb (ring_edges (map (sc (j * k)) ps)) (sc j P) = in_ringb (ring_edges (map (sc k) ps)) P.
+Proof. exact in_ring_scale_invariant. Qed.
+
+(* ringIntersectsLine = Poly.IntersectsLine / Line.IntersectsPoly for a polygon without holes:
+   true exactly when some segment of the line shares a point with the closed ring *)
+Theorem C02_ring_line_pointset : forall ps qs,
+  ring_intersects_line (RS {| closed := true; pts := ps |}) (RS {| closed := false; pts := qs |}) true = true <->
+  (3 <= length ps)%nat /\ (2 <= length qs)%nat /\
+  exists sg, In sg (path_segs qs) /\ shares_point ps (fst sg) (snd sg).
+Proof. exact ring_intersects_line_pointset. Qed.
+
+(* non-vacuity: a square, a segment through it with both ends outside (two edges
+   meet it), and a rational shared point that is not a grid point of the unscaled plane *)
+Example C02_two_edges_example :
+  let ps := [(0,0); (4,0); (4,4); (0,4); (0,0)] in
+  in_ringb (ring_edges ps) (-1, 1) = false /\ in_ringb (ring_edges ps) (5, 2) = false /\
+  existsb (fun e => intersects_segment ((-1, 1), (5, 2)) e) (ring_edges ps) = true /\
+  length (filter (fun e => intersects_segment ((-1, 1), (5, 2)) e) (ring_edges ps)) = 2%nat /\
+  ring_intersects_segment (RS {| closed := true; pts := ps |}) ((-1, 1), (5, 2)) true = true.
+Proof. vm_compute. repeat split. Qed.
+Example C02_rational_point_example :
+  let ps := [(0,0); (4,0); (4,4); (0,4); (0,0)] in
+  (* (7/2, 7/4): the point of the segment above at parameter 3/4; with k = 4 it is P = (14, 7) *)
+  on_seg (sc 4 (-1, 1), sc 4 (5, 2)) (14, 7) /\ in_ringb (ring_edges (map (sc 4) ps)) (14, 7) = true.
+Proof. split; [unfold on_seg; vm_compute; repeat split; discriminate|vm_compute; reflexivity]. Qed.
+Example C02_parity_constant_example :
+  let ps := [(0,0); (4,0); (4,4); (0,4); (0,0)] in
+  (forall e, In e (ring_edges ps) -> seg_meetb e ((1, 1), (3, 2)) = false) /\
+  parityb (ring_edges ps) (1, 1) = true /\ parityb (ring_edges ps) (3, 2) = true.
+Proof. vm_compute. split; [|split; reflexivity]. intros e [<-|[<-|[<-|[<-|[]]]]]; reflexivity. Qed.
+
 Print Assumptions C02_segment_exact.
+Print Assumptions C02_parity_constant_off_boundary.
+Print Assumptions C02_two_edges_meet.
+Print Assumptions C02_ring_segment_exact.
+Print Assumptions C02_ring_segment_pointset.
+Print Assumptions C02_rational_membership_well_defined.
+Print Assumptions C02_ring_line_pointset.
 Print Assumptions C02_rect_rect.
 Print Assumptions C02_line_line.
 Print Assumptions C02_line_line_symmetric.
